@@ -15,4 +15,12 @@ theorem C04_gen_poolGrowthRule : Generated.poolGrowthRule = some JRV.Pool.growth
 theorem C04_gen_poolPendingStores : Generated.poolPendingStores = some JRV.Pool.pendingStoresSpec := by decide
 theorem C04_gen_poolUnlockedAccesses : Generated.poolUnlockedAccesses = some JRV.Pool.unlockedAccessesSpec := by decide
 
+/- ===== text layer (tools/extractors/textlayer.py) — the hypothesis `hws` of `C04_ws_wrapped_body` ===== -/
+
+/-- The standard-library handler parses with `json.loads` itself (default settings): white space before and after the
+    value is skipped, the whole body is consumed (`JSONDecoder.raw_decode` does neither). -/
+theorem C04_gen_stdlibLoadsPlain : Generated.stdlibLoadsPlain = some true := by decide
+/-- `jsonrpclib.loads` hands the body to the parser as it is (no strip / slice in front of it). -/
+theorem C04_gen_loadsParsesWholeBody : Generated.loadsParsesWholeBody = some true := by decide
+
 end JRV.Props
